@@ -105,6 +105,11 @@ public:
   ghost_var_manager_t &operator=(const ghost_var_manager_t &o) = default;
   ghost_var_manager_t &operator=(ghost_var_manager_t &&o) = default;
 
+  // The type function usually captures the abstract state that owns
+  // this manager: it must be re-bound whenever the manager is copied
+  // or moved into another abstract state.
+  void rebind_get_type(get_type_fn get_type) { m_get_type = get_type; }
+
   ghost_variables_t get_or_insert(const variable_t &v) {
     auto gvars_opt = get(v);
     assert(gvars_opt);
@@ -478,6 +483,11 @@ public:
       default;
   ghost_var_manager_t &operator=(const ghost_var_manager_t &o) = default;
   ghost_var_manager_t &operator=(ghost_var_manager_t &&o) = default;
+
+  // The type function usually captures the abstract state that owns
+  // this manager: it must be re-bound whenever the manager is copied
+  // or moved into another abstract state.
+  void rebind_get_type(get_type_fn get_type) { m_get_type = get_type; }
 
   ghost_variables_t get_or_insert(const variable_t &v) {
     auto it = m_map.find(v);
